@@ -29,6 +29,13 @@ func (zzGraphResolver) FindFileByPath(path string) (SearchResult, error) {
 	return SearchResult{}, zzNotFound
 }
 
+var zzOverride bool
+
+// zzHasOverride replaces (*executor).hasOverrideDescriptorProto (the real one compares with
+// the standard-imports table, whose initialisation runs through protodesc and is not
+// available under the VM): the harness decides whether descriptor.proto is overridden.
+func zzHasOverride(e *executor) bool { return zzOverride }
+
 // zzLink replaces (*task).link: linking is not the subject of the deadlock/cycle clauses.
 func zzLink(t *task, parseRes parser.Result, deps linker.Files, override linker.File) (linker.File, error) {
 	return nil, nil
@@ -65,6 +72,13 @@ func HarnessC06Sched() {
 			}
 		}
 		zzGraphFiles = append(zzGraphFiles, fd)
+	}
+	zzOverride = zz.Choice(2) == 1
+	if zzOverride {
+		// the resolver overrides google/protobuf/descriptor.proto: every file then depends on
+		// it implicitly and waits for it separately (after its explicit imports)
+		dp := descriptorProtoPath
+		zzGraphFiles = append(zzGraphFiles, &descriptorpb.FileDescriptorProto{Name: &dp})
 	}
 	nreq := 1 + zz.Choice(n)
 	par := 1 + zz.Choice(2)
